@@ -144,6 +144,7 @@ Proof.
   - right. apply (IH l i p); [lia | exact Hp].
 Qed.
 
+Local Opaque Qred Qdiv Qplus Qminus qmax sum_pts max_list min_list.
 Theorem auto_root_contains : forall slack data N c,
   0 <= slack ->
   auto_root slack data N = Some c ->
@@ -154,8 +155,11 @@ Proof.
   assert (Hin : In p (firstn N data)) by (apply (firstn_In_nth N data i p Hi Hp)).
   destruct (firstn N data) as [|p0 l0] eqn:El; [discriminate|].
   injection E as <-.
-  apply contains_iff. cbn [cx cy chw chh]. rewrite !Qred_correct.
-  set (mx := fst (sum_pts (p0 :: l0)) / Qn N). set (my := snd (sum_pts (p0 :: l0)) / Qn N).
+  apply contains_iff. cbn [cx cy chw chh].
+  set (mx := Qred (fst (sum_pts (p0 :: l0)) / Qn N)). set (my := Qred (snd (sum_pts (p0 :: l0)) / Qn N)).
+  set (hwq := qmax (max_list fst (p0 :: l0) (fst p0) - mx) (mx - min_list fst (p0 :: l0) (fst p0))).
+  set (hhq := qmax (max_list snd (p0 :: l0) (snd p0) - my) (my - min_list snd (p0 :: l0) (snd p0))).
+  pose proof (Qred_correct (hwq + slack)) as R1. pose proof (Qred_correct (hhq + slack)) as R2.
   pose proof (max_list_ge fst (p0 :: l0) (fst p0) p Hin) as X1.
   pose proof (min_list_le fst (p0 :: l0) (fst p0) p Hin) as X2.
   pose proof (max_list_ge snd (p0 :: l0) (snd p0) p Hin) as Y1.
@@ -164,5 +168,6 @@ Proof.
   pose proof (qmax_ge_r (max_list fst (p0 :: l0) (fst p0) - mx) (mx - min_list fst (p0 :: l0) (fst p0))) as A2.
   pose proof (qmax_ge_l (max_list snd (p0 :: l0) (snd p0) - my) (my - min_list snd (p0 :: l0) (snd p0))) as B1.
   pose proof (qmax_ge_r (max_list snd (p0 :: l0) (snd p0) - my) (my - min_list snd (p0 :: l0) (snd p0))) as B2.
+  fold hwq in A1, A2. fold hhq in B1, B2.
   repeat split; lra.
 Qed.
